@@ -93,6 +93,14 @@ impl Expr {
             }
         }
     }
+    /// is the node this expression evaluates to freshly created, and does it honour a user cutoff?
+    pub fn result_takes_cutoff(&self) -> bool {
+        match self {
+            Expr::Ref(_) | Expr::Lhs | Expr::DependOn(..) | Expr::WithOld(..) | Expr::Cut(..) => false,
+            Expr::Discard(_, b) => b.result_takes_cutoff(),
+            _ => true,
+        }
+    }
     pub fn contains_bind(&self) -> bool {
         match self {
             Expr::Bind(..) => true,
@@ -285,14 +293,11 @@ pub fn gen_expr(ch: &mut Choices, cx: &mut GenCx, depth: u32) -> Expr {
         }
         9 => {
             let inner = gen_expr(ch, cx, depth + 1);
-            match inner {
-                // only freshly created nodes that honour a user cutoff
-                Expr::Ref(_)
-                | Expr::Lhs
-                | Expr::DependOn(..)
-                | Expr::WithOld(..)
-                | Expr::Cut(..) => inner,
-                other => Expr::Cut(gen_cutoff(ch, p.weird_cutoffs), Box::new(other)),
+            // only freshly created nodes that honour a user cutoff
+            if inner.result_takes_cutoff() {
+                Expr::Cut(gen_cutoff(ch, p.weird_cutoffs), Box::new(inner))
+            } else {
+                inner
             }
         }
         10 => Expr::MapCap(ch.byte() % 4, Box::new(gen_expr(ch, cx, depth + 1))),
